@@ -121,9 +121,9 @@ def replay(f):
                         res = hist.undo(drop=True)
                     elif op == "redo":
                         res = hist.redo()
-                    elif op == "undo-i":
+                    elif op in ("undo-i", "undo-i-drop"):
                         lst = list(hist.undo_list)
-                        res = hist.undo(lst[t[1]])
+                        res = hist.undo(lst[t[1]], drop=(op == "undo-i-drop"))
                     else:
                         lst = list(hist.redo_list)
                         res = hist.redo(lst[t[1]])
@@ -134,7 +134,7 @@ def replay(f):
                     continue
                 except Exception as e:
                     return dict(reproduced=True, signature="algebra:history_op_raised:%s:%s" % (codes, type(e).__name__), detail="trace=%s: %s raised %s: %s" % (w["trace"], op, type(e).__name__, e))
-                if op in ("undo-i", "redo-i"):
+                if op in ("undo-i", "redo-i", "undo-i-drop"):
                     descs = [[x["desc"] for x in done if x["obj"] is c][0] for c in lst]
                     exp = sorted(_closure(descs, t[1]))
                     got = sorted(lst.index(c) for c in res)
@@ -143,7 +143,9 @@ def replay(f):
                 for c in res:
                     for x in done:
                         if x["obj"] is c:
-                            x["status"] = ("forgotten" if op == "undo-drop" else "undone") if op.startswith("undo") else "force"
+                            x["status"] = ("forgotten" if op.endswith("-drop") else "undone") if op.startswith("undo") else "force"
+            if {id(c_) for c_ in hist.redo_list} != {id(x["obj"]) for x in done if x["status"] == "undone"}:
+                return dict(reproduced=True, signature="algebra:redo_list_wrong:%s" % codes, detail="trace=%s: after step %d the redo list is not the set of undone, not dropped changes" % (w["trace"], step))
             if len(hist.undo_list) > limit:
                 return dict(reproduced=True, signature="algebra:limit_exceeded:%s" % codes, detail="trace=%s undo list %d > %d" % (w["trace"], len(hist.undo_list), limit))
             st = dict(pre)
